@@ -27,6 +27,8 @@ func checkC19(r *Report, p *Program) {
 	keyCompleteness(r, p, "R19.6", "getKeyFromObject")
 	// 429 ⇒ TooManyRequestError ⇒ re-queue after Retry-After, all the way up (shared with C12)
 	r12_4(r, p)
+	// "a timeout is an error": the client always has one (shared with C12)
+	r12_10(r, p)
 }
 
 // webhookAbstractImpls returns the named module types implementing hooks.webhookAbstract.
@@ -217,7 +219,7 @@ func hookCallOrder(r *Report, p *Program, rule string) {
 	// unsupported ⇒ error return (of the function holding the gate, handed up to Call's caller)
 	gf := iss.Fn
 	var from []engine.Point
-	for _, b := range gf.Blocks {
+	for _, b := range engine.BlocksInl(gf) {
 		for i := range b.Succs {
 			if l, ok := engine.EdgeLit(b, i); ok && !l.Pos && engine.SameValue(l.Cond, iss.Instr.Value()) {
 				from = append(from, engine.Point{B: b.Succs[i]})
@@ -286,7 +288,7 @@ func r19_3(r *Report, p *Program) {
 	strictList := engine.ResultValue(um.Instr, 0)
 	var from []engine.Point
 	succ := successEdgeOf(um.Instr)
-	for _, b := range call.Blocks {
+	for _, b := range engine.BlocksInl(call) {
 		for i := range b.Succs {
 			if l, ok := engine.EdgeLit(b, i); ok && succ(l) {
 				from = append(from, engine.Point{B: b.Succs[i]})
@@ -350,7 +352,7 @@ func r19_3(r *Report, p *Program) {
 	r.Check(rule, rootKey+"[strict∧violations⇒error]", p.InstrPos(um.Instr), w3 == nil && okUp, "strict mode with strict errors ⇒ rejected", "strict mode accepts a response with unknown/duplicate fields"+whyUp)
 	if f := fn(r, p, rule, "hooks.webhookExecutor.shouldReportStrictErrors"); f != nil {
 		ok := false
-		for _, b := range f.Blocks {
+		for _, b := range engine.BlocksInl(f) {
 			for _, in := range b.Instrs {
 				if rt, isR := in.(*ssa.Return); isR && E(rt.Results[0]) == `(p0.responseUnmarshallMode == "strict")` {
 					ok = true
@@ -378,7 +380,7 @@ func r19_4(r *Report, p *Program, impls []types.Type) {
 		if len(gets) == 0 && len(sets) == 0 {
 			// stateless implementation: must return the body it was given
 			ok := true
-			for _, b := range adj.Blocks {
+			for _, b := range engine.BlocksInl(adj) {
 				for _, in := range b.Instrs {
 					if rt, isR := in.(*ssa.Return); isR && E(rt.Results[0]) != "p3" {
 						ok = false
@@ -392,7 +394,7 @@ func r19_4(r *Report, p *Program, impls []types.Type) {
 		// returns of a cached Response
 		for i, g := range gets {
 			entry := engine.ResultValue(g.Instr, 0)
-			for _, b := range adj.Blocks {
+			for _, b := range engine.BlocksInl(adj) {
 				for _, in := range b.Instrs {
 					rt, isR := in.(*ssa.Return)
 					if !isR || entry == nil || !engine.DependsOnValue(rt.Results[0], entry, nil) {
@@ -419,6 +421,44 @@ func r19_4(r *Report, p *Program, impls []types.Type) {
 					r.Check(rule, sf("%s→cached-body#%d[only-on-304/412]", FK(adj), i), p.InstrPos(in), w2 == nil, "cached body only for 304/412", "a cached body can be returned for a status other than 304/412; "+pathWhy(w2))
 				}
 			}
+		}
+		// a 304/412 answer to our If-None-Match never falls through to the response's own body
+		{
+			nm := func(l Lit) bool {
+				return l.Pos && l.Op == token.EQL && strings.HasSuffix(E(l.X), ".StatusCode") && (E(l.Y) == "304" || E(l.Y) == "412")
+			}
+			var from []engine.Point
+			for _, b := range engine.BlocksInl(adj) {
+				for i := range b.Succs {
+					if l, ok := engine.EdgeLit(b, i); ok && nm(l) {
+						from = append(from, engine.Point{B: b.Succs[i]})
+					}
+				}
+			}
+			okN, whyN := len(from) > 0, "no test for 304/412"
+			if okN {
+				w := engine.Query{Fn: adj, From: from, Target: func(in ssa.Instruction) bool {
+					rt, isR := in.(*ssa.Return)
+					if !isR || isErrReturn(rt) {
+						return false
+					}
+					// a successful return that hands back the received body (p3) or anything not from the cache
+					fromCache := false
+					for _, g := range gets {
+						if e := engine.ResultValue(g.Instr, 0); e != nil && engine.DependsOnValue(rt.Results[0], e, nil) {
+							fromCache = true
+						}
+					}
+					return !fromCache
+				}, CutEdge: func(b *ssa.BasicBlock, i int, l *Lit) bool {
+					// the header was not sent: an unsolicited 304 is rejected elsewhere (isStatusSupported)
+					return l != nil && l.Pos && l.Op == token.EQL && strings.Contains(l.Atom, `"If-None-Match"`) && E(l.Y) == `""`
+				}}.Find()
+				if w != nil {
+					okN, whyN = false, "a 304/412 answer to our If-None-Match can end in success with a body that is not the cached one (e.g. when the cache entry has expired meanwhile): the (empty or unrelated) body of the 304/412 itself is decoded as the hook's answer; "+pathWhy(w)
+				}
+			}
+			r.Check(rule, FK(adj)+"[not-modified⇒cached∨error]", p.Pos(adj.Pos()), okN, "304/412 ⇒ cached body (ETag equal) or error", whyN)
 		}
 		// cache Set: body of this response with this response's ETag, non-empty
 		for i, s := range sets {
@@ -510,7 +550,7 @@ func r19_5(r *Report, p *Program) {
 	// the executor is built with it
 	if nw := fn(r, p, rule, "hooks.newWebhookExecutor"); nw != nil {
 		ok := false
-		for _, b := range nw.Blocks {
+		for _, b := range engine.BlocksInl(nw) {
 			for _, in := range b.Instrs {
 				if st, isS := in.(*ssa.Store); isS && strings.HasSuffix(E(st.Addr), ".responseUnmarshallMode") && E(st.Val) == "call(hooks.responseUnmarshallMode)(p3)" {
 					ok = true
